@@ -1,8 +1,11 @@
 #!/bin/bash
-# ./seedauto.sh <seed-id> <check-ids...>   reads demo coordinates from /tmp/seed-<id>/OUT/meta.json and calls seedrun.sh
+# ./seedauto.sh <seed-id> <check-ids...>   reads the demo coordinates from /tmp/seed-<id>/OUT/meta.json and calls
+# seedrun.sh; when the scratch worktree is gone it re-runs the stored seed against the named checks only.
 ID="$1"; shift
 M=/tmp/seed-$ID/OUT/meta.json
-[ -f "$M" ] || { M=/verif/seeded/$ID/meta.json; export VERIF_SEED_ONLY_CHECKS=1; }
+if [ ! -f "$M" ]; then
+  VERIF_SEED_ONLY_CHECKS=1 exec /verif/seedrun.sh "$ID" x x x x "$@"
+fi
 read MOD PKG DEMO RX < <(python3 -c "
 import json;m=json.load(open('$M'))['demo'];print(m['module'],m['pkg_dir'],m['file'],m['run'])")
 exec /verif/seedrun.sh "$ID" "$MOD" "$PKG" "$DEMO" "$RX" "$@"
